@@ -4,10 +4,10 @@ and return canonical observables.
 Case format (all JSON):
 
   {"nodes": [{"name": "N0",
-              "in": {"x": SRC, "y": SRC},        # fields of the encoder task; absent field = default None
+              "in": {"x": SRC, "y": SRC},        # fields x, y, z, u, v of the encoder task; absent field = default None
               "split": None | ["x"] | ["outer","x","y"] | ["inner","x","y"],
               "combine": ["N0.x", "N1.y", ...]   # dotted axis names (own fields are given dotted too)
-              "wf": false | true                 # the node is a nested workflow: ia = Enc(tag, x, y, z); ib = Enc(tag, ia.out)
+              "wf": false | true                 # the node is a nested workflow: ia = Enc5(tag, x, …, v); ib = Enc5(tag, ia.out)
              }, ...],
    "out": ["N2", ...]}                           # workflow outputs: out of these nodes, in this order
 
@@ -16,7 +16,7 @@ Case format (all JSON):
       | {"l": [values], "w": 1} same, but passed through a workflow input (lazy at construction)
       | {"n": "N0"}             output `out` of an earlier node
 
-Every node is the python task `Enc(tag, x, y, z) -> [tag, x, y, z]`, so the routing of upstream outputs is visible in the
+Every node is the python task `Enc5(tag, x, y, z, u, v) -> [tag, x, y, z, u, v]`, so the routing of upstream outputs is visible in the
 outputs.  Each case gets its own generated module with unique function names (pydra hashes classes by source, D28).
 """
 
@@ -36,7 +36,16 @@ from pydra.compose import python, workflow
 
 @python.define(outputs=["out"])
 def Enc(tag: ty.Any, x: ty.Any = None, y: ty.Any = None, z: ty.Any = None) -> ty.Any:
-    return [tag, x, y, z]
+    return [tag, x, y, z]  # the encoder of engine WfCache (C30)
+
+
+@python.define(outputs=["out"])
+def Enc5(tag: ty.Any, x: ty.Any = None, y: ty.Any = None, z: ty.Any = None, u: ty.Any = None, v: ty.Any = None) -> ty.Any:
+    return [tag, x, y, z, u, v]  # the encoder of engine WfState (C03): five input fields, so that a node can be fed by four
+    # independently split upstream nodes and still have an own splitter
+
+
+FIELDS = ("x", "y", "z", "u", "v")
 
 
 _uid = itertools.count()
@@ -74,14 +83,14 @@ def gen_source(case: dict, uid: str) -> tuple[str, dict]:
         if nd.get("wf"):
             inner.append(
                 f"@workflow.define(outputs=['out'])\n"
-                f"def I_{uid}_{name}(x=None, y=None, z=None):\n"
-                f"    ia = workflow.add(Enc(tag={name!r}, x=x, y=y, z=z), name='ia')\n"
-                f"    ib = workflow.add(Enc(tag={name!r}, x=ia.out), name='ib')\n"
+                f"def I_{uid}_{name}(x=None, y=None, z=None, u=None, v=None):\n"
+                f"    ia = workflow.add(Enc5(tag={name!r}, x=x, y=y, z=z, u=u, v=v), name='ia')\n"
+                f"    ib = workflow.add(Enc5(tag={name!r}, x=ia.out), name='ib')\n"
                 f"    return ib.out\n"
             )
             expr = f"I_{uid}_{name}({', '.join(kw[1:])})"
         else:
-            expr = f"Enc({', '.join(kw)})"
+            expr = f"Enc5({', '.join(kw)})"
         if split:
             if split[0] == "outer":
                 spl = repr(list(split[1:]))
@@ -102,7 +111,7 @@ def gen_source(case: dict, uid: str) -> tuple[str, dict]:
     src = (
         "import typing as ty\n"
         "from pydra.compose import workflow\n"
-        "from harness.engines.wfstate import Enc\n\n" + "\n".join(inner) + "\n"
+        "from harness.engines.wfstate import Enc5\n\n" + "\n".join(inner) + "\n"
         f"@workflow.define(outputs={outnames!r})\n"
         f"def W_{uid}({args}):\n" + "\n".join(body) + f"\n    return {ret}\n"
     )
@@ -199,7 +208,7 @@ def run_case(case: dict, scratch: Path, keep_exc: bool = False, rerun: bool = Fa
 
 
 def count_jobs(cache_root: Path, case: dict) -> tuple[dict, dict]:
-    """Per node: the number of job results in the cache root and the sorted list of the jobs' inputs `[x, y, z]` (as
+    """Per node: the number of job results in the cache root and the sorted list of the jobs' inputs `[x, y, z, u, v]` (as
     canonical JSON strings), read from the saved jobs.  Jobs of the outer workflow's nodes carry the node's name; the inner
     jobs of a nested-workflow node are called `ia`/`ib` and are not counted."""
     import cloudpickle as cp
@@ -216,7 +225,7 @@ def count_jobs(cache_root: Path, case: dict) -> tuple[dict, dict]:
                 job = cp.load(f)
             name = job.name
             t = job.task
-            vals = [canon(getattr(t, fld, None)) for fld in ("x", "y", "z")]
+            vals = [canon(getattr(t, fld, None)) for fld in FIELDS]
         except Exception:  # noqa: BLE001
             continue
         if name in names:
